@@ -22,13 +22,14 @@ PROPS["C15"] = {
         Job("parse", "H_rawtextBytes", "1..3", workers=8),
         Job("soyhtml", "H_textlex", "0..3,0..2", workers=16, maxfan=16),
         Job("soyhtml", "H_textlex", "0..2,3..10", workers=16, maxfan=16, note="after commands holding comments"),
+        Job("soyhtml", "H_textlex", "3..4,10", workers=16, maxfan=16, note="message text"),
         Job("soyhtml", "H_literal", "0..3", workers=8, maxfan=16),
         Job("parse", "H_rawtext", "5", tier="thorough", workers=16),
         Job("soyhtml", "H_textlex", "4,0..2", tier="thorough", workers=16, maxfan=16),
         Job("soyhtml", "H_textlex", "5,0", tier="thorough", workers=16, maxfan=16),
         Job("soyhtml", "H_textlex", "3,3..10", tier="thorough", workers=16, maxfan=16, note="after commands holding comments"),
     ],
-    "bounds_quick": "rawtext(s,trimBefore,trimAfter) vs the line-joining rule: every ASCII string (bytes 1..127) of length <= 4 with both flags symbolic; order-preservation of non-whitespace bytes over all 256 byte values for length <= 3; the whole chain lexer -> text/comment tokens -> rawtext -> render for every template body of <= 3 characters over {a < > space LF CR / * :} between prints, at template start and at template end, and (<= 2 characters; thorough 3) after 7 commands that hold comments of their own (between call params, before a switch case, inside if/foreach/let/param blocks) (comment-free: exact output; with comments: exactly the non-whitespace characters outside comments; unclosed block comment: error); literal blocks of <= 3 characters over {a space { } LF CR TAB / < *} and all special-character commands",
+    "bounds_quick": "rawtext(s,trimBefore,trimAfter) vs the line-joining rule: every ASCII string (bytes 1..127) of length <= 4 with both flags symbolic; order-preservation of non-whitespace bytes over all 256 byte values for length <= 3; the whole chain lexer -> text/comment tokens -> rawtext -> render for every template body of <= 3 characters over {a < > space LF CR / * :} between prints, at template start and at template end, and (<= 2 characters; thorough 3) after 7 commands that hold comments of their own (between call params, before a switch case, inside if/foreach/let/param blocks), and as the text of a message (<= 4 characters: tags become placeholders and are written back unchanged) (comment-free: exact output; with comments: exactly the non-whitespace characters outside comments; unclosed block comment: error); literal blocks of <= 3 characters over {a space { } LF CR TAB / < *} and all special-character commands",
     "bounds_thorough": "as quick, ASCII length <= 5; template bodies of 4 characters in all contexts and 5 between prints",
     "outside": "longer text runs",
     "assumptions": ["refRawtext (harness) is the statement's rule written over maximal whitespace runs"],
@@ -59,13 +60,13 @@ PROPS["C03"] = {
 # ---------------------------------------------------------------- C12
 PROPS["C12"] = {
     "jobs": [
-        Job("soyhtml", "H_fault", "0..11,0..3,0", workers=16),
-        Job("soyhtml", "H_fault", "0..11,0..1,1", workers=16),
-        Job("soyhtml", "H_fault", "0..11,0..3,2..3", workers=16, maxfan=300),
+        Job("soyhtml", "H_fault", "0..12,0..3,0", workers=16),
+        Job("soyhtml", "H_fault", "0..12,0..1,1", workers=16),
+        Job("soyhtml", "H_fault", "0..12,0..3,2..3", workers=16, maxfan=300),
         Job("soyhtml", "H_fault", "7..8,4,0..3", workers=8, maxfan=300, note="untranslated plural, n=1"),
-        Job("soyhtml", "H_fault", "0..11,2..3,1", tier="thorough", workers=16),
+        Job("soyhtml", "H_fault", "0..12,2..3,1", tier="thorough", workers=16),
     ],
-    "bounds_quick": "12 templates (incl. static-text-only templates, directly and through a call, and a template without output) covering every write site (incl. loops over 9 and 10 items) of the tree walker (raw text, escaped/unescaped print, css, literal, special chars, msg text/html tag/placeholder, plural messages (as the last output and followed by output; source cases and the cases of a translating bundle), let and param content blocks, log, call, data=all call, foreach, switch; the msg template also with a translating message bundle) x 4 data strings; four writer models: sticky failure from a symbolically chosen Write call, the same with a symbolic accepted prefix of the failing call (2 data strings), a writer with a symbolic byte capacity that still accepts empty writes once full, and a transient failure of exactly one symbolically chosen call",
+    "bounds_quick": "13 templates (incl. a template that calls itself, static-text-only templates, directly and through a call, and a template without output) covering every write site (incl. loops over 9 and 10 items) of the tree walker (raw text, escaped/unescaped print, css, literal, special chars, msg text/html tag/placeholder, plural messages (as the last output and followed by output; source cases and the cases of a translating bundle), let and param content blocks, log, call, data=all call, foreach, switch; the msg template also with a translating message bundle) x 4 data strings; four writer models: sticky failure from a symbolically chosen Write call, the same with a symbolic accepted prefix of the failing call (2 data strings), a writer with a symbolic byte capacity that still accepts empty writes once full, and a transient failure of exactly one symbolically chosen call",
     "bounds_thorough": "short writes for all 4 data strings",
     "outside": "templates other than the listed ones; writers that fail and later recover",
     "assumptions": ["writer models as listed in bounds; a write that fails accepts a prefix of its argument"],
@@ -77,16 +78,16 @@ PROPS["C12"] = {
 def parse_jobs():
     return [
         Job("parse", "H_validFile", "", workers=1),
-        Job("parse", "H_parseCtx", "0..71,0..1,false", workers=16, maxsteps=300000),
+        Job("parse", "H_parseCtx", "0..77,0..1,false", workers=16, maxsteps=300000),
         Job("parse", "H_exprCtx", "0..21,0..2,false", workers=16, maxsteps=300000),
-        Job("parse", "H_parseCtx", "0..71,2,false", workers=16, maxsteps=300000, note="k=2"),
+        Job("parse", "H_parseCtx", "0..77,2,false", workers=16, maxsteps=300000, note="k=2"),
         Job("parse", "H_prefix", "0..738,0", workers=16, maxsteps=600000, note="every prefix"),
         Job("parse", "H_prefix", "0..738,1", tier="thorough", workers=16, maxsteps=600000, note="every prefix + 1 symbolic byte"),
-        Job("parse", "H_parseCtx", "0..71,3,true", tier="thorough", workers=16, maxsteps=300000, note="k=3 ascii"),
+        Job("parse", "H_parseCtx", "0..77,3,true", tier="thorough", workers=16, maxsteps=300000, note="k=3 ascii"),
         Job("parse", "H_exprCtx", "0..21,3,true", tier="thorough", workers=16, maxsteps=300000, note="k=3 ascii"),
     ]
 
-PARSE_BOUNDS_Q = "parse.SoyFile on 72 concrete lexer/parser contexts (incl. every quoted attribute value, empty values included) followed by k <= 2 symbolic bytes (all 256 values); parse.Expr on 22 contexts with k <= 2; every prefix of a 738-byte valid file using every command; step bound 300000 (600000 for prefixes) SSA instructions per path acts as the unwinding assertion"
+PARSE_BOUNDS_Q = "parse.SoyFile on 78 concrete lexer/parser contexts (incl. every quoted attribute value, empty values included) followed by k <= 2 symbolic bytes (all 256 values); parse.Expr on 22 contexts with k <= 2; every prefix of a 738-byte valid file using every command; step bound 300000 (600000 for prefixes) SSA instructions per path acts as the unwinding assertion"
 PARSE_BOUNDS_T = PARSE_BOUNDS_Q + "; thorough adds k = 3 over ASCII for all contexts and every prefix + 1 symbolic byte"
 
 PROPS["C05"] = {
@@ -160,6 +161,7 @@ PROPS["C01"] = {
         Job("soyhtml", "H_dataref", "0..5,0..8", workers=8),
         Job("soyhtml", "H_datarefChain", "0..5,0..5,-1..5,0..12", workers=16),
         Job("soyhtml", "H_collFuncs", "", workers=8),
+        Job(".", "H_globalIn", "0..19", workers=8),
         Job("soyhtml", "H_strContains", "0..3,0..2", workers=8),
         Job("soyhtml", "H_func", "0..13,0..3,0..8,0..8,0..2", workers=16, maxsteps=400000, hang_timeout=4.0, allow_unsupported=(r"math\.Pow\(symbolic\)",)),
         Job("parse", "H_minus", "false", workers=4),
@@ -195,8 +197,9 @@ PROPS["C06"] = {
         Job(".", "H_globals", "0..28,true", workers=8),
         Job(".", "H_globals", "0..28,false", workers=4),
         Job(".", "H_globalsSym", "0..23,0..2", workers=16, maxsteps=400000),
+        Job("soyhtml", "H_staleTranslation", "0..3,0..2", workers=8, maxsteps=400000),
     ],
-    "bounds": "every built-in function (and an unknown one) with 0..3 arguments of any of 9 value kinds (third argument int/string/undefined), ints in [-4,4]; every binary operator on every operand kind pair; every built-in print directive (and an unknown one) with 0..2 arguments of any kind on a value of any kind (json only on concrete-shaped values); soyhtml.EvalExpr on every operator with an undefined/erroring/well-typed left operand; 12 failing commands at call depth 0..2 in a bundle with and without a second file that redefines the same template names; soy.ParseGlobals on 29 valid/erroring/malformed definitions (incl. truncated escapes and unterminated literals) and on 24 expression contexts followed by 0..2 symbolic bytes of any value (line breaks included); step bound 400000 as unwinding assertion",
+    "bounds": "every built-in function (and an unknown one) with 0..3 arguments of any of 9 value kinds (third argument int/string/undefined), ints in [-4,4]; every binary operator on every operand kind pair; every built-in print directive (and an unknown one) with 0..2 arguments of any kind on a value of any kind (json only on concrete-shaped values); soyhtml.EvalExpr on every operator with an undefined/erroring/well-typed left operand; 12 failing commands at call depth 0..2 in a bundle with and without a second file that redefines the same template names; rendering 3 templates (message at top level, one call deep, plural) through catalogues whose entries do not fit the message (unknown placeholder, plural for a plain message, missing plural case, no parts); soy.ParseGlobals on 29 valid/erroring/malformed definitions (incl. truncated escapes and unterminated literals) and on 24 expression contexts followed by 0..2 symbolic bytes of any value (line breaks included); step bound 400000 as unwinding assertion",
     "outside": "user-registered functions and directives; data recursion deeper than 2; file-system loading",
     "assumptions": ["rand.Int63n returns an arbitrary value in range"],
     "level_text": "Bounded symbolic model checking: ill-typed use is the input space - argument kinds are enumerated, payloads symbolic; an escaping panic, a deadlock or a path exceeding the step bound is an engine verdict that is then reproduced natively.",
@@ -273,11 +276,12 @@ PROPS["C17"] = {
     "jobs": [
         Job("parse", "H_roundLeaf", "0..19,0..7", workers=8),
         Job("parse", "H_roundWrapOp", "0..16,3..7", workers=8),
+        Job("parse", "H_roundOperands", "0..16,0..15,0..15", workers=16),
         Job("parse", "H_roundStr", "0..2,1..4", workers=16),
         Job("parse", "H_roundOps", "0..16,0..16,0..2", workers=16),
         Job("parse", "H_roundPrint", "0..19,0..3", workers=8),
     ],
-    "bounds": "expression trees: every leaf kind (ints incl. negative and 2^53, floats incl. integral and exponent forms and 16 boundary magnitudes (2^63, 2^64, 1e15..1e22, 1e-7, max, min subnormal), bool, null, strings of 1 symbolic byte quoted by the real quoteString, data references with every access kind, globals, function calls, list and map literals, empty literals) alone and under negate/not/index/call/list/map/access-chain wrappers; every operator inside each bracketing wrapper (with a symbolic string operand); string literals and map keys of any valid UTF-8 of <= 4 bytes; every operator (14 binary, 2 unary, ternary) over every operator in every operand position (depth 2); print commands with 0..2 directives with arguments",
+    "bounds": "expression trees: every leaf kind (ints incl. negative and 2^53, floats incl. integral and exponent forms and 16 boundary magnitudes (2^63, 2^64, 1e15..1e22, 1e-7, max, min subnormal), bool, null, strings of 1 symbolic byte quoted by the real quoteString, data references with every access kind, globals, function calls, list and map literals, empty literals) alone and under negate/not/index/call/list/map/access-chain wrappers; every operator over every pair of 16 operand spellings (null-safe and plain accesses, calls, literals, signs, globals, $ij); every operator inside each bracketing wrapper (with a symbolic string operand); string literals and map keys of any valid UTF-8 of <= 4 bytes; every operator (14 binary, 2 unary, ternary) over every operator in every operand position (depth 2); print commands with 0..2 directives with arguments",
     "outside": "nesting depth > 2 of operators (parenthesisation is decided pairwise, so depth 2 covers each parent/child combination once); strings longer than 4 bytes",
     "assumptions": ["sameTree (harness): structural equality ignoring positions and the Quoted/Name presentation fields"],
     "level_text": "Bounded symbolic model checking over expression trees enumerated up to depth 2 with symbolic string bytes: print with the real String methods, parse with the real parser, compare structurally.",
@@ -294,9 +298,9 @@ PROPS["C19"] = {
         Job("soyhtml", "H_writeerrpos", "3", workers=8),
         Job("soyhtml", "H_rendererrMsg", "4,false", workers=4),
         Job("soyhtml", "H_rendererrMsg", "4,true", workers=4),
-        Job("parse", "H_parseCtx", "0..71,0..1,false", workers=16, maxsteps=300000),
+        Job("parse", "H_parseCtx", "0..77,0..1,false", workers=16, maxsteps=300000),
         Job("parse", "H_exprCtx", "0..21,0..1,false", workers=16, maxsteps=300000),
-        Job("parse", "H_parseCtx", "0..71,2,false", tier="thorough", workers=16, maxsteps=300000, note="k=2"),
+        Job("parse", "H_parseCtx", "0..77,2,false", tier="thorough", workers=16, maxsteps=300000, note="k=2"),
         Job("parse", "H_errpos", "0..11,0..2,7", tier="thorough", workers=16, note="7 lines"),
     ],
     "bounds": "parse errors: 12 fault kinds injected on a symbolically chosen line of a 4-line (thorough 7) template body with LF, CRLF and blank-line separators: file name, exact line (point faults) or line within [construct start, end of input] (constructs left open), same numbers in the message text; on the C05 context harnesses (arbitrary symbolic bytes) every parse error carries the given file name and a line within 1..1+count(LF). Render errors: failing command on a symbolically chosen line at call depth 0..2 across two files (in different namespaces and in one shared namespace); render errors raised inside a {msg} (from the source and through a translating catalogue) whose message also occurs, and renders, in a called template before and after; render errors caused by a write failure at a symbolically chosen write of a 3-line template",
@@ -317,6 +321,8 @@ PROPS["C16"] = {
         Job("soyhtml", "H_newlineToBr", "0..4", workers=8, maxfan=300),
         Job("soyhtml", "H_chain", "0..4", workers=8),
         Job("soyhtml", "H_printPath", "0..6,0..2", workers=8),
+        Job("soyhtml", "H_printPathMsg", "false", workers=8),
+        Job("soyhtml", "H_printPathMsg", "true", workers=8),
         Job("soyjs", "H_jsChain", "0..7,false", workers=4, note="order of the JavaScript counterparts"),
         Job("soyjs", "H_jsChain", "0..7,true", workers=4, note="order of the JavaScript counterparts"),
         Job("soyhtml", "H_json", "0..3,0..2", workers=16),
@@ -326,7 +332,7 @@ PROPS["C16"] = {
         Job("soyhtml", "H_truncate", "4..5,0..8,0..2", tier="thorough", workers=16),
         Job("soyhtml", "H_newlineToBr", "5", tier="thorough", workers=16, maxfan=300),
     ],
-    "bounds_quick": "escapeUri: every string of <= 2 bytes (all 256 values); escapeJsString: <= 2 ASCII bytes (incl. controls) optionally with one of U+00E9/U+2028/U+2029/U+FEFF; truncate: valid UTF-8 strings of <= 3 bytes, limit 0..5, ellipsis default/true/false, and 5-byte strings with limit 4 and the ellipsis on; insertWordBreaks:k (k 1..3) on <= 3 ASCII bytes; changeNewlineToBr on every string of <= 4 bytes other than NUL (the regexp replacement `\\r\\n|\\r|\\n` is summarised by a Go model validated natively against package regexp); 5 chains of two directives through parser and renderer; every encoding directive through the print command on strings of 0..2 bytes (the print path adds or drops nothing); the JavaScript emitted for 8 directive chains applies the JavaScript counterparts left to right with their own arguments, autoescaping last; |json on strings of <= 2 bytes of valid UTF-8 (all byte values), alone and inside lists/maps with booleans, null, undefined and small ints, against a reference JSON parser (encoding/json's string encoding is a Go model validated natively against json.Marshal; structure and key order are produced as encoding/json documents them)",
+    "bounds_quick": "escapeUri: every string of <= 2 bytes (all 256 values); escapeJsString: <= 2 ASCII bytes (incl. controls) optionally with one of U+00E9/U+2028/U+2029/U+FEFF; truncate: valid UTF-8 strings of <= 3 bytes, limit 0..5, ellipsis default/true/false, and 5-byte strings with limit 4 and the ellipsis on; insertWordBreaks:k (k 1..3) on <= 3 ASCII bytes; changeNewlineToBr on every string of <= 4 bytes other than NUL (the regexp replacement `\\r\\n|\\r|\\n` is summarised by a Go model validated natively against package regexp); 5 chains of two directives through parser and renderer; every encoding directive through the print command on strings of 0..2 bytes (the print path adds or drops nothing), and with different arguments on one value inside a message rendered from the source and through an identity catalogue; the JavaScript emitted for 8 directive chains applies the JavaScript counterparts left to right with their own arguments, autoescaping last; |json on strings of <= 2 bytes of valid UTF-8 (all byte values), alone and inside lists/maps with booleans, null, undefined and small ints, against a reference JSON parser (encoding/json's string encoding is a Go model validated natively against json.Marshal; structure and key order are produced as encoding/json documents them)",
     "bounds_thorough": "escapeUri 3 bytes; escapeJsString 3 bytes; truncate strings of <= 5 bytes with limits 0..8; changeNewlineToBr length 5",
     "outside": "|json of floats and of values outside the listed shapes (encoding/json itself works through reflection and is replaced by a model for strings plus the documented structure rules); the JavaScript counterparts in soyutils.js (no JavaScript semantics in the engine); bidi directives (unimplemented in soy); longer strings",
     "assumptions": ["refJSString (harness): reference decoder of ECMAScript string literal bodies, rejecting raw quotes, line terminators, control characters and < > &"],
@@ -341,11 +347,12 @@ PROPS["C14"] = {
         Job("soyjs", "H_jsLiteral", "0..5,0..1,1..5", workers=16),
         Job("soyjs", "H_jsLong", "0..5,0..4,0..5,0..3", workers=16, maxsteps=3000000, note="long text"),
         Job("soyjs", "H_jsLong", "0..5,5..6,0..5,0..3", tier="thorough", workers=16, maxsteps=3000000, note="longer text"),
+        Job("soyjs", "H_jsLiteralIn", "0..15,0..2", workers=8),
         Job("soyjs", "H_jsStruct", "0..3,false", workers=4),
         Job("soyjs", "H_jsStruct", "0..3,true", workers=4),
         Job("soyjs", "H_jsLiteral", "0..5,3,0", tier="thorough", workers=16),
     ],
-    "bounds_quick": "string emission at 6 sites (raw text, string literal, map literal key, css suffix, global string value, message text) with <= 2 symbolic ASCII bytes (all 128 values incl. quotes, backslash, controls, line terminators), and <= 1 byte combined with U+00E9, U+2028, U+2029, U+1F600 or the text </script>: the emitted token is one well-formed, script-safe literal (for appended text: one or several append statements, each literal valid UTF-8) that decodes to the original characters; long text: a padding that places a 2-, 3- or 4-byte character (U+00E9, U+20AC, U+2028, U+1F600) across or next to every power-of-two offset 64..1024 (thorough: ..4096) followed by a symbolic byte, at each site; structure of the generated files for 4 bundles (incl. namespaces with repeated segments) x 2 formatters (every prefix of the namespace declared outermost first before the functions, one function per template under its qualified/exported name, balanced brackets outside literals, identifier-shaped variable names)",
+    "bounds_quick": "string emission at 6 sites (raw text, string literal, map literal key, css suffix, global string value, message text) with <= 2 symbolic ASCII bytes (all 128 values incl. quotes, backslash, controls, line terminators), and <= 1 byte combined with U+00E9, U+2028, U+2029, U+1F600 or the text </script>: the emitted token is one well-formed, script-safe literal (for appended text: one or several append statements, each literal valid UTF-8) that decodes to the original characters; the same literal at 16 positions of commands (print, call param values with and without data=all, let, if, switch case, function and directive arguments, index, loop list, ?: and ternary operands, call data map, message placeholder, css, log) is emitted as the same token; long text: a padding that places a 2-, 3- or 4-byte character (U+00E9, U+20AC, U+2028, U+1F600) across or next to every power-of-two offset 64..1024 (thorough: ..4096) followed by a symbolic byte, at each site; structure of the generated files for 4 bundles (incl. namespaces with repeated segments) x 2 formatters (every prefix of the namespace declared outermost first before the functions, one function per template under its qualified/exported name, balanced brackets outside literals, identifier-shaped variable names)",
     "bounds_thorough": "3 symbolic bytes per site",
     "outside": "full-script syntactic validity: needs a JavaScript parser inside the solver loop, which is not available; only literal tokens and the bracket/definition structure are decided. Whole-template generation with symbolic text through the parser.",
     "assumptions": ["refJSLiteral (harness): reference decoder of ECMAScript string literal bodies"],
@@ -359,12 +366,13 @@ PROPS["C02"] = {
         Job("soyhtml", "H_program", "2,2,0..2", workers=16, timeout=900),
         Job("soyhtml", "H_programBlocks", "2,3", workers=16, timeout=900),
         Job("soyhtml", "H_forRange", "1..3", workers=16),
+        Job("soyhtml", "H_callNames", "0..7", workers=8),
         Job("soyhtml", "H_programBlocks", "3,4", tier="thorough", workers=16, timeout=3000),
-        Job("soyhtml", "H_program", "2,3,0..2", tier="thorough", workers=16, timeout=3000),
+        Job("soyhtml", "H_program", "2,3,1", tier="thorough", workers=16, timeout=5000),
     ],
     "bounds_quick": "template bodies generated from the command grammar (raw text, print, if/else, foreach/ifempty with isLast, let value, let content, call with data=all / data=$m / none and an optional param, switch with multi-value case/default, for-range, special characters/literal/css/log/msg) with at most 2 generated nodes (thorough: 3 and 4) up to nesting depth 2, followed by a fixed trailer printing the params, list lengths 0..2; names drawn from {a,b,i} so that lets shadow params and loop variables; data: a symbolic bool, b symbolic in {p,q}, a list and a map; a second generator profile restricted to output-redirecting blocks (text, print, let content, call with a content param, nested in each other) with at most 3 nodes, depth 2 (thorough: 4 nodes, depth 3); compiled by the real parser (without the data-reference check so that unbound names reach the renderer) and rendered by the real interpreter; compared with an independent big-step reference semantics with block scoping and call isolation",
     "bounds_thorough": "3 generated nodes for every list length (about 10^6 paths, 30 min)",
-    "outside": "programs beyond the size bound; recursion; several namespaces/files and aliased call names (covered by the concrete bundles of C08/C13); header params",
+    "outside": "programs beyond the size bound; recursion beyond depth 2; header params",
     "assumptions": ["refRender (c02Env in the harness) is an independent transcription of the Soy command semantics: a let or loop variable lives in the block that introduces it; a callee sees the passed data plus its params only"],
     "level_text": "Bounded model checking over programs: the program is chosen through solver-visible choice variables over the command grammar (an exhaustive enumeration within the size bound, driven through the symbolic executor), the data is symbolic; every program is run through the real parser and interpreter and through an independent reference interpreter.",
     "level_note": "Over programs the check enumerates; over data the solver decides. Trusted: go/ssa, gosym, z3, the reference semantics.",
@@ -381,12 +389,13 @@ PROPS["C07"] = {
         Job("soyhtml", "H_datarefsBind", "2,4,false,false", tier="thorough", workers=16, timeout=3000),
         Job("soyhtml", "H_datarefsBind", "2,4,true,false", tier="thorough", workers=16, timeout=3000),
         Job("soyhtml", "H_bothParamStyles", "0..2", workers=2),
+        Job(".", "H_recompile", "0..5", workers=4),
         Job("soyhtml", "H_datarefs", "1,2,false,true", tier="thorough", workers=16, timeout=3000),
         Job("soyhtml", "H_datarefsLate", "1,2,2", tier="thorough", workers=16, timeout=3000),
         Job("soyhtml", "H_datarefs", "2,2,true,false", tier="thorough", workers=16, timeout=3000),
         Job("soyhtml", "H_datarefs", "2,2,false,false", tier="thorough", workers=16, timeout=3000),
     ],
-    "bounds_quick": "bundles generated around binding structure: a template with params l, m and (by configuration) a / optional b, a body of at most 2 generated nodes up to nesting depth 2 among print ($a,$b,$c,$i,$ij.x), let value / let content (names a, c, ij), if, foreach, call (existing callee with optional params, callee with a required param, missing callee; data none/all/$m; param k, undeclared zz, required q; value or content param) plus a fixed trailer; the soydoc of the callee with a required param lists it before or after the optional one (a choice); a second generator profile restricted to binding structure (print, let value, let content, if, foreach; lets may be named like the loop variable) with 3 nodes, with and without the params a and b declared (so that every declared name can be used within the budget); CheckDataRefs accepts exactly the bundles the declarative rule set accepts; for accepted bundles a render with every declared param supplied triggers the lookup observer (hook) only for optional params a callee was not passed; the same bundles followed or preceded by a template with an unused param (state carried from one template's check to the next); both-param-styles rule on 3 concrete templates",
+    "bounds_quick": "bundles generated around binding structure: a template with params l, m and (by configuration) a / optional b, a body of at most 2 generated nodes up to nesting depth 2 among print ($a,$b,$c,$i,$ij.x), let value / let content (names a, c, ij), if, foreach, call (existing callee with optional params, callee with a required param, missing callee; data none/all/$m; param k, undeclared zz, required q; value or content param) plus a fixed trailer; the soydoc of the callee with a required param lists it before or after the optional one (a choice); a second generator profile restricted to binding structure (print, let value, let content, if, foreach; lets may be named like the loop variable) with 3 nodes, with and without the params a and b declared (so that every declared name can be used within the budget); CheckDataRefs accepts exactly the bundles the declarative rule set accepts; for accepted bundles a render with every declared param supplied triggers the lookup observer (hook) only for optional params a callee was not passed; the same bundles followed or preceded by a template with an unused param (state carried from one template's check to the next); both-param-styles rule on 3 concrete templates; 6 bundles with header or soydoc params (valid, or with one rule broken) compiled repeatedly through one Bundle value",
     "bounds_thorough": "the other param-declaration configurations; binding-structure profile with 4 nodes. (3 nodes of the full grammar were tried: > 2.4 million paths, not finished in 50 min, not registered.)",
     "outside": "bundles beyond the size bound; {msg} bodies; several files/namespaces (the rules are per template and callee lookup is by qualified name)",
     "assumptions": ["c07Check (harness) is a declarative transcription of the rules in the property statement: references resolve to the innermost enclosing let defined earlier, a loop variable inside its loop, a declared param, or $ij; data=\"all\" forwards params (never lets) and counts as their use"],
@@ -401,6 +410,7 @@ PROPS["C11"] = {
         Job("soymsg/pomsg", "H_plural", "1..3", workers=8, timeout=600),
         Job("soymsg/pomsg", "H_catalogue", "0..3", workers=8, timeout=600),
         Job("soymsg/pomsg", "H_sameID", "0..2", workers=8, timeout=600),
+        Job("soymsg/pomsg", "H_distinctIDs", "1..37", workers=8, timeout=600),
     ],
     "bounds": "10 messages (one directive with different arguments; literal braces next to placeholders; text only; text + placeholders; repeated equal expressions; html tags; two expressions that differ only in parenthesisation; colliding placeholder base names; one expression printed with different directives; two link tags with different attributes) in 4 contexts (plain, inside a foreach, inside the content block of a call param, inside a called template) x 3 catalogues built with the real extraction functions (pomsg.Validate/Msgid/MsgidPlural -> newMessage -> soymsg.Parts): identity, parts reversed, message absent; data: symbolic int in [0,2] and a symbolic byte from {a,b,c,<}; pairs of messages that share an id (same text and placeholder names, different expressions) in one template; a three-message bundle (plural + two plain) loaded through the real newBundle from PO entries in 4 orders; plural message with {case 1}+{default} under catalogues with 1, 2 and 3 plural forms where the bundle's PluralCase returns an arbitrary index below the number of forms, or the English rule",
     "outside": "PO text syntax and file loading (robfig/gettext/po), locale fallback (x/text/language), the xgettext-soy main wrapper (its extract function is three calls which the harness mirrors), the JavaScript backend (no JS semantics in the engine); messages outside the dictionary; soymsg.Parts runs its regexp natively on concrete text",
